@@ -93,7 +93,7 @@ PROPS = {
                 pending=['ops_refine (induction over whole operation sequences against the abstract spec)']),
     'C15': dict(obligations=lambda: P('SqProps.C15') + TIE_LEX + TIE_GRAM + TIE_TOK,
                 slices=['layout'], monitors=['c15'],
-                pending=['lex_extra_blank over whole texts (token-level half now follows from C06.complete_expr: parens_read_as_inner, method_and_pipe_same_tree, trailing-comma constructors)']),
+                pending=['lex_extra_blank over whole texts (character-level half; the token-level half is proved: SqLemmas/ParseLayout.lean)']),
     'C16': dict(obligations=lambda: P('SqProps.C16') + TIE_TOK,
                 slices=['malformed'], monitors=['c16'],
                 pending=[]),
